@@ -42,6 +42,7 @@ EXPLANATION = (
     'spellings / small membership tests normalised); calls are bound by signature; findings need a closed world, else Undecided. '
     'R8 also: a strip of an item attribute from the installed name (man page locale) performed under tests of that attribute is not skipped on a path that never tests it. '
     'R8 also: no field of an install record built in a loop depends on a local that the loop body redefines from per-item data and reads before defining it (a value carried over from the previous file, e.g. a guessed tag). '
+    'R8 also (lockstep fields): two fields of a build record that the generator walks position by position (`zip(de.sources, de.rename)` over build.Data) are split together wherever records are built in a loop: at a constructor call inside a `for` statement (interpreter.py; thorough tier also mesonbuild/modules) one field of the pair must not be computed from the loop item (a per-iteration subset) while the other is the same, complete value in every iteration (the whole rename list handed to every per-directory record of install_data(preserve_path: true)); an omitted / None field is derived by the class record by record and is fine; a `raise` under tests of the list together with a mode flag of the building function (in it or in a same-class caller) makes the site Undecided instead. '
     'R4b also: the log writer records the entry itself - any str transform (strip chain / slice) applied to the entry before it is written may remove nothing but the terminator the writer then appends. '
     'Normal form N15: a local helper function (closure) used only by direct calls from its defining function is read at its calls (expression form `return E`, statement form without return); '
     'module-level single-binding constants are folded in the module scope when the log path is read (R1/R4b). '
@@ -54,6 +55,9 @@ EXPLANATION = (
     'the granularity of the --only-changed timestamp comparison (should_preserve_existing_file comparing int()-truncated instead of raw st_mtime is a value-level change of the compared quantity; seed r7-2), '
     'the relative order of the per-kind installers other than install_subdirs first (install_symlinks before the file kinds lets later copies write through an installed absolute link, '
     'but which orders are safe depends on the destinations of a particular project and a loop over a tuple of bound methods is not unrolled; seed r7-3), '
+    'that a record field split together with its lockstep partner is split by the *same* grouping and in the same order (only per-iteration vs whole is read; records built in comprehensions or helpers are Undecided), '
+    'that intro-install_plan.json lists every destination when one source file is installed to several places (mintro.list_install_plan keys by source path; the plan is a report, not a created file; seed r7 C11-2), '
+    'that directories created by an earlier install run are still removed by uninstall after a reinstall or --dry-run has rewritten install-log.txt (R4a reads what one run records; the log of a run lists what that run created; seed r7 C11-3), '
     'symlink-escapes through '
     'pre-existing links, `..` components of install paths, or what custom install scripts write.')
 ASSUMPTIONS = [
@@ -64,7 +68,7 @@ ASSUMPTIONS = [
 TECHNIQUE = ('who-may-call over a classified effect table + CFG reachability under three-valued guard atoms (K2/K1); must-rootedness over all '
              'bindings (def-use) with interprocedural parameter demands (K3); decision tables by path enumeration, compared with references on all '
              'worlds of their atoms and by symbolic shape of outcomes/effects after copy propagation, constants folded (K6/K5); strip-set algebra '
-             'of the reader\'s str-method chain against the writer\'s folded terminator (K11-like); must-flow of unpacked item components, upward-exposed (loop-carried) reads in the def-use closure of record fields and sanitiser flow in install-data generation (K3); CFG reachability under the atoms of a declared Optional[bool] domain (R9); source-to-source normal form first; no repository expression is evaluated on sample values')
+             'of the reader\'s str-method chain against the writer\'s folded terminator (K11-like); must-flow of unpacked item components, upward-exposed (loop-carried) reads in the def-use closure of record fields, loop-variance (item-dependent vs whole) of zip-paired record fields at constructor calls and sanitiser flow in install-data generation (K3); CFG reachability under the atoms of a declared Optional[bool] domain (R9); source-to-source normal form first; no repository expression is evaluated on sample values')
 
 
 # =============================================================================================
